@@ -363,7 +363,8 @@ def run_property(prop, tier, seed, level, explanation="", trusted_base=(), worke
         if comp.kind == "static":
             n_ob += cr["obligations"]
             n_dis += cr["discharged"]
-            backends["static-ast"] = backends.get("static-ast", 0) + cr["discharged"]
+            bk = cr.get("backend") or "static-ast"
+            backends[bk] = backends.get(bk, 0) + cr["discharged"]
             if not cr["errors"] and cr["obligations"] == 0:
                 crashes.append(f"{comp.name}: vacuous static component (0 obligations)")
         else:
